@@ -29,7 +29,8 @@ for sid in seeds:
                 "C05-12": ["C11"], "C07-12": ["C01"], "C09-12": ["C07"], "C10-11": ["C14"], "C13-12": ["C10"], "C14-11": ["C20"], "C14-12": ["C20"],
                 "C03-12": ["C18"], "C01-13": ["C02"], "C01-14": ["C04"], "C02-14": ["C07"], "C06-14": ["C13"], "C07-13": ["C14"], "C07-14": ["C10"],
                 "C09-13": ["C14"], "C09-14": ["C14"], "C12-13": ["C12"], "C13-14": ["C11"], "C14-13": ["C01"], "C15-14": ["C16"], "C17-13": ["C20"],
-                "C01-15": ["C06"], "C05-16": ["C17"], "C06-15": ["C20"], "C12-15": ["C14"], "C14-15": ["C11"], "C01-16": ["C07"], "C14-16": ["C10"]}
+                "C01-15": ["C06"], "C05-16": ["C17"], "C06-15": ["C20"], "C12-15": ["C14"], "C14-15": ["C11"], "C01-16": ["C07"], "C14-16": ["C10"],
+                "C02-16": ["C06"], "C10-15": ["C14"], "C07-18": ["C14"], "C12-18": ["C14"], "C05-17": ["C14"], "C06-17": ["C14"], "C14-17": ["C11"], "C14-18": ["C10"]}
     # the property's own check first; if it stays silent, the other checks known to see this change
     checks = [own] + [c for c in OVERRIDE.get(sid, det) if c != own]
     assert sh("git -C /repo diff --quiet").returncode == 0, "/repo dirty"
